@@ -13,6 +13,8 @@ for d in seeded/*/; do
   case "$prop" in C[0-9][0-9]) ;; *) prop=$(python3 -c "import json;print(json.load(open('$d/meta.json'))['breaks_property'])");; esac
   other=$(python3 -c "import json;print(json.load(open('$d/meta.json')).get('check_with',''))" 2>/dev/null)
   [ -n "$other" ] && prop="$other"
+  nj=$(python3 -c "import json;print(json.load(open('$d/meta.json')).get('not_judged','')[:60])" 2>/dev/null)
+  if [ -n "$nj" ]; then echo "| $id | $prop | - | - | not judged: see meta.json and DESIGN.md §10 |" >> $OUT.tmp; echo "$id not-judged"; continue; fi
   patch="$d/patch.diff"; [ -f "$d/patch_ported.diff" ] && patch="$d/patch_ported.diff"
   [ -f "$patch" ] || continue
   tier="${1:-quick}"
